@@ -1,7 +1,7 @@
 (* Props/C05.v — ||, &&, ?: are lazy and absorb failures by fixed rules; one truthiness. *)
 From Coq Require Import ZArith List Bool.
 From Rscel Require Import Base.Prims Model.Value Model.Ops Model.Funcs Model.Interp.
-From Rscel Require Import Model.Lexer Model.Ast Model.Parser Model.Compile Proofs.Blocks Proofs.BlocksAnd Proofs.Chains Proofs.Truthy.
+From Rscel Require Import Model.Lexer Model.Ast Model.Parser Model.Compile Proofs.Blocks Proofs.BlocksAnd Proofs.Chains Proofs.MatchBlock Proofs.Truthy.
 From Coq Require Strings.String.
 Import Coq.Strings.String.StringSyntax.
 Import ListNotations.
@@ -175,4 +175,32 @@ Example C05_chain_shape :
   | _ => None
   end = Some (or_chain_code [IPush (VIdent #"a")] [[IPush (VIdent #"b")];
                and_chain_code [IPush (VIdent #"c")] [[IPush (VIdent #"d")]; [IPush (VIdent #"e")]]]).
+Proof. vm_compute. reflexivity. Qed.
+
+(** * match, as emitted: the scrutinee is evaluated once, the patterns are tried in order, the arm of
+    the first pattern that yields true runs; a pattern that yields false or fails is skipped; null when
+    none matches.  Arms of skipped cases, and every case after the chosen one, are ANY code. *)
+Theorem C05_match_evaluates : forall rs E d cc cs lg sv lg1 v lg2 res lg3,
+  pushes rs E d cc lg sv lg1 -> resolves rs E d sv lg1 v lg2 -> plainv v -> cs <> [] ->
+  match_run rs E d v lg2 cs res lg3 ->
+  forall st, exists f, loop rs f E d (match_code cc cs) O st lg = (ROk (res :: st), lg3).
+Proof. exact match_evaluates. Qed.
+Print Assumptions C05_match_evaluates.
+
+Theorem C05_match_first_hit : forall rs E d cc pb arm r lg sv lg1 v lg2 lg3 sva lg4,
+  pushes rs E d cc lg sv lg1 -> resolves rs E d sv lg1 v lg2 -> plainv v ->
+  pat_eval rs E d pb v lg2 (VBool true) lg3 -> pushes rs E d arm lg3 sva lg4 ->
+  forall st, exists f, loop rs f E d (match_code cc ((pb, arm) :: r)) O st lg = (ROk (sva :: st), lg4).
+Proof. exact match_first_hit. Qed.
+Print Assumptions C05_match_first_hit.
+
+(** the block shape is the compiler's *)
+Example C05_match_shape :
+  match compile_source 40 #"match x { case y: a, case int: b, case _: c }" with
+  | COk p _ => Some (pr_code p)
+  | _ => None
+  end = Some (match_code [IPush (VIdent #"x")]
+                [([IPush (VIdent #"y"); IEq], [IPush (VIdent #"a")]);
+                 ([IPush (VIdent #"type"); ICall 1; IPush (VIdent #"int"); IEq], [IPush (VIdent #"b")]);
+                 ([IPop; IPush (VBool true)], [IPush (VIdent #"c")])]).
 Proof. vm_compute. reflexivity. Qed.
